@@ -1,7 +1,7 @@
 """C11 - whitespace and redundant parentheses never change the parse."""
 import os
 import core, tlc
-import prattfam as pf
+import prattfam as pf, lexfam
 
 INV = "PrattAgreesWithGrammar ParensRedundant"
 
@@ -10,7 +10,8 @@ def layout_leg(run, name, recs, layouts):
     path = os.path.join(tlc.WORK, "layout-replay-%s.ndjson" % name)
     tpath = os.path.join(tlc.WORK, "layout-trace-%s.ndjson" % name)
     core.write_ndjson(path, recs)
-    out, _ = core.run_vh(["layout-replay", path, "--seed", run.seed, "--layouts", layouts, "--trace-out", tpath])
+    tight = os.path.join(tlc.WORK, "layout-tight-%s.ndjson" % name)
+    out, _ = core.run_vh(["layout-replay", path, "--seed", run.seed, "--layouts", layouts, "--trace-out", tpath, "--tight-out", tight])
     summ = [o for o in out if "summary" in o]
     if not summ:
         raise tlc.ToolError("layout-replay produced no summary (%s)" % name)
@@ -25,7 +26,72 @@ def layout_leg(run, name, recs, layouts):
     trecs = core.read_ndjson(tpath)
     if trecs:
         run.sample({"leg": "R", "config": name, "layout": trecs[len(trecs) // 2]["text"]})
+    spec_tight(run, name, core.read_ndjson(tight))
     return trecs
+
+
+def spec_tokens(run, name, texts):
+    """Token sequence (kind, text) the Lexer SPECIFICATION assigns to each text, None for a lexical error: the real tokenizer's report where
+    TraceLexer accepts it, the specification's own tokens where it does not."""
+    tp = os.path.join(tlc.WORK, "tight-texts-%s.ndjson" % name)
+    core.write_ndjson(tp, [{"text": t} for t in texts])
+    op = os.path.join(tlc.WORK, "tight-obs-%s.ndjson" % name)
+    core.run_vh(["lex-observe", tp, "--out", op])
+    recs = core.read_ndjson(op)
+    parts, k = core.shard(recs, 16)
+    files = []
+    for i, part in enumerate(parts):
+        p = os.path.join(tlc.WORK, "tight-obs-%s-%d.ndjson" % (name, i))
+        core.write_ndjson(p, part)
+        files.append(p)
+    cfg = lexfam.trace_cfg("tight-" + name, "BuiltinOps")
+    results = core.parallel([(lambda p=p: tlc.run("trace/TraceLexer.tla", cfg, workers=1, env={"TRACE": p}, deque=True, xmx="2g", timeout=1800)) for p in files])
+    spec = {}
+    for i, res in enumerate(results):
+        run.tlc("T:TraceLexer/tight-%s/%d" % (name, i), res)
+        if res.violation:
+            raise tlc.ToolError("TraceLexer: %s on the tight layouts" % res.violation)
+        prs = core.tlc_printed_records(res)
+        if not any(p.get("done") == len(parts[i]) for p in prs):
+            raise tlc.ToolError("TraceLexer did not consume every tight layout (%s/%d)" % (name, i))
+        over = {p["mismatch"]: p["spec"] for p in prs if "mismatch" in p}
+        for j, rec in enumerate(parts[i]):
+            text = lexfam.chars_str(rec["chars"])
+            if j in over:
+                spec[text] = [(t[0], tuple(t[3])) for t in over[j]["toks"]] if over[j]["ok"] else None
+            else:
+                spec[text] = [(t[0], tuple(t[3])) for t in rec["toks"]] if rec["ok"] else None
+    return spec
+
+
+def unesc(s):
+    import re
+    return re.sub(r"\\u\{([0-9A-Fa-f]+)\}", lambda m: chr(int(m.group(1), 16)), s)
+
+
+def spec_tight(run, name, pairs):
+    """White space dropped blindly; the Lexer specification decides which variants are still the same token sequence, and those must parse
+    exactly like the spaced base (h11-b: `2--3` against `2-- 3`)."""
+    if not pairs:
+        return
+    for p in pairs:
+        p["base"], p["tight"] = unesc(p["base"]), unesc(p["tight"])
+    texts = sorted(set([p["base"] for p in pairs] + [p["tight"] for p in pairs]))
+    spec = spec_tokens(run, name, texts)
+    same = bad = 0
+    for p in pairs:
+        a, b = spec.get(p["base"]), spec.get(p["tight"])
+        # number tokens carry their source text: equal kinds and texts means the same program
+        if a is None or b is None or a != b:
+            continue
+        same += 1
+        if not p["same_parse"]:
+            bad += 1
+            run.violation("C11/layout", "%s: %r vs %r" % ("panic" if p["tight_panic"] else "the Lexer specification gives both layouts the same tokens, but they parse differently", p["tight"], p["base"]),
+                          {"family": "layout", "text": p["tight"], "base": p["base"], "why": "same tokens by the Lexer specification, different parse"})
+    run.traces += same
+    run.evaluations += same
+    run.leg("R:tight-by-spec/" + name, variants=len(pairs), same_tokens_by_spec=same, mismatches=bad)
 
 
 def paren_leg(run, name, wraps, mult, single):
@@ -54,6 +120,9 @@ def check(run):
                      "leg R: every accepted program of those configurations and of the delimiter alphabet in %d seeded layouts (whitespace strings over space/tab/CR/LF at every token "
                      "boundary, no whitespace next to delimiters) must give the same token kinds/texts and the same tree; the wrapped token strings parsed by the real parser with every "
                      "redundant parenthesis written 1, 2 and 5 times and one seeded pair written 64 times; non-trivial = accepted program" % layouts)
+    run.rules.append("tight layouts: every accepted program also with white space dropped (a) greedily wherever hook H1 still reports the same tokens and (b) blindly at all / at half of the "
+                     "boundaries, where the Lexer SPECIFICATION (TraceLexer on the real tokenizer's report, the specification's own tokens where it disagrees) decides whether the variant is still the same "
+                     "token sequence: those variants must parse exactly like the spaced program; the bare rendering of every specified tree must parse to that tree, like its fully parenthesised twin")
     run.rules.append("leg T: random programs under random layouts parsed by the real parser, judged by TLC with RefParse on the reported tokens (string payloads contain spaces and newlines)")
     budget_hits = 0
     trace_recs = []
@@ -94,7 +163,7 @@ def check(run):
         # documented limit of the C01 repair: beyond the nesting budget (and only beyond the grammar's TokenFloor) extra parentheses are refused
         run.violation("C11/nesting-budget", "%d wrapped programs longer than 200 tokens were refused by the nesting budget" % budget_hits, {"family": "parens", "count": budget_hits})
     run.exhaustive = False
-    run.assumptions += ["names are not operator words", "an empty gap is only generated next to a delimiter token (elsewhere tokens may fuse)",
+    run.assumptions += ["names are not operator words", "in the seeded layouts an empty gap is only generated next to a delimiter token (elsewhere tokens may fuse); the tight layouts drop white space everywhere and are judged where the token sequence is unchanged",
                         "TLC, hook H1, the JSON encodings and the harness's comparison code are trusted"]
 
 
